@@ -191,7 +191,7 @@ class ReMatch:
 
 
 class RePattern:
-    def __init__(self, pattern, flags=0):
+    def __init__(self, pattern, flags=0):  # flags: int value of the re flags given to re.compile
         self.pattern, self.flags = pattern, flags
 
 
@@ -527,6 +527,12 @@ class Executor:
         mode 'assert': an obligation that it cannot happen."""
         if isinstance(cond, bool) and cond:
             return
+        if getattr(self, "contract_safety_assert", False):
+            i_guard = self.pc[-1]
+            self.path_obls.append(Obligation(f"safety@L{line}/{label}(every element)", self.pc + self.hints,
+                                             cond if not isinstance(cond, bool) else z3.BoolVal(cond), "safety", line,
+                                             {"inputs": getattr(self, "cur_inputs", None)}))
+            return
         if self.contract.safety_mode == "fork" or exc_cls in self.contract.fork_on:
             if not self.decide(cond if not isinstance(cond, bool) else z3.BoolVal(cond), label):
                 raise PyRaise(VExc(exc_cls, (), f"L{line}:{label}"))
@@ -585,6 +591,11 @@ class Executor:
             return SList(ln, z3.Const(fresh_name(base + "_at"), v.at.sort()), v.ekind)
         if isinstance(v, tuple):
             return tuple(self.havoc_like(x, base) for x in v)
+        from . import grid as G
+        if isinstance(v, G.SGrid):
+            return G.SGrid.fresh(self, base, v.cls)
+        if isinstance(v, SRef):
+            return SRef(z3.Int(fresh_name(base)), v.cls)
         raise Unsupported(f"havoc of {type(v).__name__} ({base})")
 
     # ================================================================ statements
@@ -597,6 +608,7 @@ class Executor:
         if m is None:
             raise Unsupported(f"statement {type(s).__name__} at L{s.lineno}")
         self.cur_line = s.lineno
+        self.cur_env = env
         return m(s, env)
 
     def s_Expr(self, s, env):
@@ -903,6 +915,15 @@ class Executor:
             return {"len": inner["len"], "get": lambda ex, i: inner["get"](ex, inner["len"] - 1 - i)}
         if isinstance(it, PList):
             return {"len": z3.IntVal(len(it.items)), "get": lambda ex, i: ex.plist_get_sym(it, i)}
+        from . import grid as G
+        if isinstance(it, G.SRowVal):
+            return {"len": it.ln, "get": lambda ex, i: SRef(z3.Select(it.arr, i), it.cls)}
+        if isinstance(it, G.SRowRef):
+            return {"len": z3.Select(it.grid.rl, it.r), "get": lambda ex, i: SRef(it.grid.cell(it.r, i), it.grid.cls)}
+        if isinstance(it, G.SGrid):
+            return {"len": it.nr, "get": lambda ex, i: G.SRowRef(it, i)}
+        if isinstance(it, G.SGridView):
+            return {"len": G.length(ex_ := self, it), "get": lambda ex, i: G.SRowRef(it.grid, it.lo + i)}
         raise Unsupported(f"iteration over {type(it).__name__}")
 
     def unroll_for(self, s, it, env):
@@ -1145,6 +1166,8 @@ class Executor:
                     pass
             d = self.decide(t, "boolop")
             if d != isand:
+                if d and isinstance(v, SOpt):
+                    return v.val  # truthy => not None on this path
                 return v
         return v
 
@@ -1198,6 +1221,12 @@ class Executor:
         # value-level ite when both arms are simple and same-typed
         if self.pure_simple(e.body) and self.pure_simple(e.orelse):
             a, b = self.eval(e.body, env), self.eval(e.orelse, env)
+            ts = z3.simplify(t)
+            # `d if x is None else x` / `x if x is not None else d`: the optional is narrowed by the test
+            if isinstance(b, SOpt) and z3.simplify(b.isnone).eq(ts):
+                b = b.val
+            if isinstance(a, SOpt) and z3.simplify(z3.Not(a.isnone)).eq(ts):
+                a = a.val
             m = self.ite_value(t, a, b)
             if m is not None:
                 return m
@@ -1561,6 +1590,9 @@ class Executor:
     def get_item(self, obj, sl, env, line=0):
         if isinstance(obj, SOpt):
             obj = self.unopt(obj, line, "subscripted")
+        from . import grid as G
+        if isinstance(obj, G.GRID_TYPES):
+            return G.get_item(self, obj, sl, env, line)
         if isinstance(sl, ast.Slice):
             if isinstance(obj, (str, SStr)):
                 s = lift(obj)
@@ -1650,6 +1682,9 @@ class Executor:
         return SList(z3.simplify(n), new_at, lst.ekind)
 
     def set_item(self, obj, sl, v, env, line=0):
+        from . import grid as G
+        if isinstance(obj, G.GRID_TYPES):
+            return G.set_item(self, obj, sl, v, env, line)
         if isinstance(sl, ast.Slice):
             if isinstance(obj, _Sliceable):
                 from . import bytemem
@@ -1679,7 +1714,25 @@ class Executor:
         raise Unsupported(f"item assignment on {type(obj).__name__} at L{line}")
 
     def del_item(self, obj, sl, env, line=0):
+        from . import grid as G
+        if isinstance(obj, G.GRID_TYPES):
+            return G.del_item(self, obj, sl, env, line)
         raise Unsupported("del item")
+
+    def e_Yield(self, e, env):
+        v = self.eval(e.value, env) if e.value is not None else None
+        scope = env
+        while scope is not None and "__yielded__" not in scope:
+            scope = scope.get("__closure__")
+        if scope is None:
+            raise Unsupported("yield outside the verified generator")
+        y = scope["__yielded__"]
+        from . import grid as G
+        if isinstance(y, G.SGrid):
+            G.append(self, y, v, e.lineno)
+        else:
+            y.items.append(v)
+        return None
 
     def e_Lambda(self, e, env):
         return Func(e, self.finfo.mod, closure=env)
@@ -1728,7 +1781,46 @@ class Executor:
         return out
 
     def e_GeneratorExp(self, e, env):
+        if len(e.generators) == 1 and not e.generators[0].ifs:
+            from . import grid as G
+            it = self.eval(e.generators[0].iter, env)
+            if isinstance(it, (G.SGridView, G.SRowVal, G.SRowRef, G.SGrid)):
+                return self.map_to_row(e.elt, e.generators[0].target, it, env)
+            return PList(self.comprehension_from(e.elt, e.generators, env, it))
         return PList(self.comprehension(e.elt, e.generators, env))
+
+    def map_to_row(self, elt, target, it, env):
+        """(elt for target in it) over a grid view / row: a row value defined pointwise (elt must be a reference)."""
+        from . import grid as G
+        seq = self.as_indexable(it)
+        i = z3.Int(fresh_name("mi"))
+        sc = dict(env)
+        self.assign(target, seq["get"](self, i), sc)
+        saved_pc = len(self.pc)
+        saved_mode, saved_fork = self.contract.safety_mode, self.contract.fork_on
+        saved = self.in_merge
+        self.in_merge += 1
+        guards = []
+        try:
+            # element evaluation happens under 0 <= i < len; safety conditions become guarded obligations
+            self.pc.append(z3.And(i >= 0, i < seq["len"]))
+            self.contract_safety_assert = True
+            try:
+                v = self.eval(elt, sc)
+            except _MergeAbort:
+                raise Unsupported("generator element forks on a symbolic sequence")
+        finally:
+            self.in_merge = saved
+            self.contract_safety_assert = False
+        extra = self.pc[saved_pc + 1:]
+        del self.pc[saved_pc:]
+        for f in extra:  # facts assumed during the element evaluation hold for every index in range
+            self.pc.append(z3.ForAll([i], z3.Implies(z3.And(i >= 0, i < seq["len"]), f)))
+        if not isinstance(v, SRef):
+            raise Unsupported("generator element is not a reference")
+        new = z3.Const(fresh_name("genrow"), G.RowArr)
+        self.pc.append(z3.ForAll([i], z3.Implies(z3.And(i >= 0, i < seq["len"]), z3.Select(new, i) == v.t)))
+        return G.SRowVal(seq["len"], new, v.cls)
 
     def e_SetComp(self, e, env):
         raise Unsupported("set comprehension")
@@ -1879,6 +1971,19 @@ class Executor:
         env.pop("__closure__", None)
         self.used_contracts.add(c.key)
         cenv = dict(env)
+        for g in c.ghost_params:  # ghost parameters are bound by name from the caller's scope
+            scope = getattr(self, "cur_env", None)
+            val = NotImplemented
+            while scope is not None:
+                if g in scope:
+                    val = scope[g]
+                    break
+                scope = scope.get("__closure__")
+            if val is NotImplemented and g in getattr(self, "entry_env", {}):
+                val = self.entry_env[g]
+            if val is NotImplemented:
+                raise Unsupported(f"call of {c.key} at L{line}: ghost parameter {g} not in scope")
+            cenv[g] = val
         for i, pre in enumerate(c.requires):
             self.oblige(f"call@L{line}:{c.short}/pre{i}", self.spec_bool(pre, cenv, c.hints, c), "call-pre", line)
         for exc_cls, cond in c.raises.items():
@@ -2020,7 +2125,11 @@ class Executor:
         node = self.finfo.node
         try:
             if _is_generator(node):
-                body_env["__yielded__"] = PList([])
+                if c.yield_grid:
+                    from . import grid as G
+                    body_env["__yielded__"] = G.SGrid.empty(c.yield_grid)
+                else:
+                    body_env["__yielded__"] = PList([])
                 self.gen_list = body_env["__yielded__"]
             self.exec_block(node.body, body_env)
             result = None
